@@ -26,10 +26,10 @@ type dcOp struct {
 	Kind     string `json:"k"` // create | close | rclose | pcclose | send | sleep
 	Ch       int    `json:"ch,omitempty"`
 	Graceful bool   `json:"g,omitempty"`
-	ID       int    `json:"id,omitempty"` // create: explicit id (0 = in-band, id assigned by pion)
+	ID       int    `json:"id,omitempty"`     // create: explicit id (0 = in-band, id assigned by pion)
 	InBand   bool   `json:"inband,omitempty"` // create with an explicit id: announced in-band (DCEP) instead of negotiated on both sides
-	Ms       int    `json:"ms,omitempty"` // sleep
-	Peer     int    `json:"p,omitempty"`  // 0 = A, 1 = B
+	Ms       int    `json:"ms,omitempty"`     // sleep
+	Peer     int    `json:"p,omitempty"`      // 0 = A, 1 = B
 }
 
 type dcCase struct {
@@ -98,9 +98,9 @@ type dcObj struct {
 	opens    int
 	closes   int
 	explicit bool
-	invAt    int // sampler tick at which CreateDataChannel was invoked (local channels)
-	claimAt  int // sampler tick by which the id was certainly registered with the transport: CreateDataChannel returned (local) / OnDataChannel fired (remote)
-	nilAt    int // last sampler tick at which the object was seen without an id
+	invAt    int  // sampler tick at which CreateDataChannel was invoked (local channels)
+	claimAt  int  // sampler tick by which the id was certainly registered with the transport: CreateDataChannel returned (local) / OnDataChannel fired (remote)
+	nilAt    int  // last sampler tick at which the object was seen without an id
 	closeRet bool // a Close()/GracefulClose() on this object returned
 }
 
